@@ -87,8 +87,35 @@ def not_of_repeated(g):
     return doc, insts, "not-of-repeated-argument"
 
 
+def not_of_capture(ctx, n):
+    """`[&i, $not[&i], y]`: the argument of an instruction-level `$not` is an instruction capture that an earlier item
+    bound - `$not` holds exactly at an instruction that is NOT the bound one (same mnemonic and operands)"""
+    g, rep = ctx.g, ctx.report
+    for _ in range(n):
+        m = g.pick(["mov", "add", "nop", "xor"])
+        ops = [] if m == "nop" else g.r.sample(["%rax", "%rbx", "%rcx", "$0x1"], 2)
+        k = g.int(0, 3)
+        second = (m, list(ops)) if k == 0 else (m, ops[:1] + ["%rdx"]) if k == 1 and ops else (g.pick(["sub", "inc"]), list(ops)) if k == 2 else (m, ops + ["%rsi"])
+        y = g.pick(["ret", "leave", "hlt"])
+        name = g.pick(["&i", "&first", "&i1"])
+        doc = {"pattern": [name, {"$not": [name]}, y]}
+        insts = [("b000", m, ops), ("b004", second[0], second[1]), ("b008", y, [])]
+        exp = (second != (m, list(ops)))
+        o = patdiff.observe(ctx, doc, insts, modes=("bool", "all"))
+        patdiff.correspondence(ctx, o)
+        if o.get("impl_bool") is not None and o["impl_bool"] != ("ok", exp):
+            mo = o.get("model")
+            model_found = bool(mo[1].get("first")) if mo and mo[0] == "ok" else None
+            rep.violate("not-of-bound-capture", patdiff.case_of(o), {"found": exp}, {"found": o.get("impl_bool")},
+                        model_agrees_with_spec=(model_found == exp) if model_found is not None else None)
+        rep.case(patdiff.case_of(o), o.get("impl_bool", ("", ""))[0] == "ok", tags=["not-of-capture-%s" % ("same" if not exp else "other")])
+        if rep.has_new() and ctx.tier == "thorough":
+            return
+
+
 def run(ctx, factor):
     rep = ctx.report
+    not_of_capture(ctx, ctx.budget(24, 600) * factor)
     for it in range(ctx.budget(45, 1500) * factor):
         doc, insts, tag = not_of_group(ctx.g) if it % 3 else not_of_repeated(ctx.g)
         o = patdiff.observe(ctx, doc, insts, modes=("bool", "all", "first"))
